@@ -483,8 +483,19 @@ func TestVerif_Streams(t *testing.T) {
 					tr.flush() // a crash of this process is attributed to this case
 					a := e.runStream(t, tr, "A", prefix, rest)
 					b := e.runStream(t, tr, "B", prefix, nil)
+					// a packet whose attribute block is shorter than its flags announce is answered with an error status and the
+					// stream goes on (attributes are decoded lazily): it must still not be ACTED upon. Run the prefix plus that one
+					// frame: the state must be what the prefix alone leaves behind
+					softStateEqual := true
+					if softMal && len(rest) >= 4 {
+						n := int(binary.BigEndian.Uint32(rest))
+						if 4+n <= len(rest) {
+							a2 := e.runStream(t, tr, "A2", prefix, rest[:4+n])
+							softStateEqual = a2.digest == b.digest
+						}
+					}
 					tr.emit("Compare", kv{"stateEqual": a.digest == b.digest, "respEqual": eqStrings(a.resps, b.resps), "nA": len(a.resps), "nB": len(b.resps),
-						"softmalformed": softMal, "refComplete": len(b.resps) == len(prefix) && !b.timeout})
+						"softmalformed": softMal, "softStateEqual": softStateEqual, "refComplete": len(b.resps) == len(prefix) && !b.timeout})
 				}
 			}
 		}
